@@ -52,7 +52,7 @@ ENTRY = {
     "C05": lambda idx: _all_of(idx, "distance3d.aabb_tree"),
     "C06": lambda idx: _all_of(idx, "distance3d.broad_phase", "distance3d.self_collision", "distance3d.urdf_utils", "distance3d.aabb_tree")
                        + _collider_methods(idx, ("update_pose", "aabb", "__init__")),
-    "C07": lambda idx: cg.roots(idx, "distance3d.epa::epa"),
+    "C07": lambda idx: cg.roots(idx, "distance3d.epa::epa") + _collider_methods(idx, ("support_function", "__call__", "__init__")),      # epa queries collider.support_function (dynamic dispatch: every implementation and what it is built from)
     "C08": lambda idx: cg.roots(idx, "distance3d.mpr::mpr_penetration"),
     "C09": lambda idx: cg.roots(idx, O + "::gjk_distance_original", N1 + "::gjk_nesterov_accelerated_distance", N2 + "::gjk_nesterov_accelerated_primitives_distance",
                                 N1 + "::gjk_nesterov_accelerated", N2 + "::gjk_nesterov_accelerated_primitives") + [f for f in _all_of(idx, O, N1, N2, J) if "iterations" in f.name],
